@@ -41,6 +41,8 @@ pub struct Inner {
     pub overlap: bool,
     pub in_call: Vec<bool>,
     pub sched_taken: Vec<usize>,
+    /// consecutive loads of the (unscheduled) owner thread without any write in between
+    pub owner_loads: usize,
 }
 
 pub struct Run {
@@ -125,6 +127,7 @@ impl Run {
                 overlap: false,
                 in_call: vec![false; nthreads + 1],
                 sched_taken: Vec::new(),
+                owner_loads: 0,
             }),
             cv: Condvar::new(),
             base_id: orx_concurrent_iter::verif::next_atomic_id(),
@@ -329,6 +332,29 @@ pub struct HarnessTracer;
 
 impl Tracer for HarnessTracer {
     fn before(&self, op: &AtomicOp) {
+        if let Some((run, _tid, scheduled)) = cur() {
+            // a thread outside the scheduler (the owner, in the sequential phases) that keeps loading
+            // without anybody writing waits for something that cannot happen any more: a hang
+            let _g = Flag::off();
+            let mut g = run.inner.lock().unwrap_or_else(|e| e.into_inner());
+            let mut hang = g.trace.len() > 400_000;
+            if !scheduled && !g.poisoned {
+                if op.kind == OpKind::Load {
+                    g.owner_loads += 1;
+                } else {
+                    g.owner_loads = 0;
+                }
+                hang = hang || g.owner_loads > 3000;
+            }
+            if hang && !g.poisoned {
+                let ev = json!({"e":"Hang","threads":[_tid],"budget": g.trace.len() > 400_000});
+                g.trace.push(ev.to_string());
+                g.poisoned = true;
+                run.cv.notify_all();
+                drop(g);
+                std::panic::resume_unwind(Box::new(Poison));
+            }
+        }
         yield_point(Pending::Atomic {
             id: op.id,
             load: op.kind == OpKind::Load,
